@@ -780,6 +780,37 @@ def extra_shared_config(ctx, rec):
                 rec.session([({"kind": "base", "i": 0, "k": 0}, other)], CONCS[0])
 
 
+def extra_epoch_histories(ctx, rec):
+    """C01 (call histories): long runs of calls of the time-based tests whose time axes are equally long but differ in
+    content (another cadence), carried as epoch-second lists / arrays built afresh for every call -- what a cache keyed by
+    object identity, length or end points would confuse; every call is judged by the rule as if it were the first"""
+    g = gen_qc.Gen(ctx.seed + 151, size=8)
+    r = g.r
+    for fn in ("roc", "flat", "att", "speed"):
+        for blk in range(ctx.pick(6, 30)):
+            n = r.choice([4, 5, 6, 8])
+            protos = []
+            for _ in range(60):
+                c = g.base(fn)
+                m = len(c["lon"]) if fn == "speed" else len(c["x"])
+                if m == n and len(c["t"]) == n and (fn != "speed" or len(c["lat"]) == n):
+                    protos.append(c)
+                if len(protos) == 2:
+                    break
+            if len(protos) < 2:
+                continue
+            tc = ["epoch_list", "epoch_i64", "epoch_f64", "epoch_list"][blk % 4]
+            for k in range(ctx.pick(8, 16)):
+                c = json.loads(json.dumps(protos[k % 2]))
+                # same length, same first and last stamp, another cadence in between
+                if k % 4 >= 2 and n >= 4:
+                    t = c["t"]
+                    mid = sorted(set(r.sample(range(t[0] + 1, t[-1]), min(n - 2, max(0, t[-1] - t[0] - 1))))) if t[-1] - t[0] > n else t[1:-1]
+                    if len(mid) == n - 2 and fn != "flat":
+                        c["t"] = [t[0]] + mid + [t[-1]]
+                rec.session([({"kind": "base", "i": 0, "k": 0}, c, {"history": True})], dict(CONCS[0], tc=tc, tbuf=(blk % 2 == 0)))
+
+
 def extra_shared_spans(ctx, rec):
     """C03 (and C01, call histories): caller-owned span LIST objects re-used by many calls on different data -- open
     bounds, reversed spans, negative data; every call is judged by the rule as if it were the first"""
@@ -878,7 +909,7 @@ PLAN = {
     "C01": {"mc": T([M("all_recall", ALL_FNS, ["recall"], 2, budget=20000)],
                     [M("all_recall", ALL_FNS, ["recall"], 3, budget=150000)]),
             "random": {"fns": ALL_FNS, "count": (330, 4400), "kinds": ["recall"], "size": (10, 30)},
-            "extra": [extra_short_series, extra_purity, extra_shared_config, extra_shared_spans, extra_repo_tests]},
+            "extra": [extra_short_series, extra_purity, extra_shared_config, extra_shared_spans, extra_epoch_histories, extra_repo_tests]},
     "C02": {"mc": T([M("missing_a", ["gross", "valid", "spike", "roc", "flat", "dens", "loc", "clim"], [], 3, budget=20000),
                      M("missing_b", ["att", "speed"], [], 2, budget=6000)],
                     [M("missing_a", ["gross", "valid", "spike", "roc", "flat", "loc", "clim"], [], 5, big=True, budget=120000),
